@@ -9,7 +9,7 @@ from . import known
 from .acc import jsonable
 
 ROOT = os.path.dirname(os.path.dirname(os.path.abspath(__file__)))
-if os.environ.get("VERIF_REPO", "/repo").rstrip("/") != "/repo":
+if os.environ.get("VERIF_REPO", "/repo").rstrip("/") != "/repo" or os.environ.get("VERIF_TASK_FILTER"):
     # runs against a mutated scratch copy never touch the evidence of the real tree
     ALT = os.path.join(os.environ.get("VERIF_SCRATCH", "/var/tmp"), "yarl-verif-alt")
     EVID = os.path.join(ALT, "evidence")
